@@ -131,18 +131,42 @@ package ucfg
 //@ loop 1 invariant 0 <= off && off <= len(content)
 //@ loop 1 decreases len(content) - off
 
-//@ func (parseState).finalize
-//@ trusted
+// operator table of the statement: ":" default, ":+" alternative, ":?" error; anything else is a programming error
+//@ func makeOpExpansion :: l, r, op, pathSep -> e
+//@ props C02
+//@ norte panic
 //@ pure
-//@ ensures !st.isvar ==> err != nil
+//@ ensures [default] op == ":" ==> typeof(e) == *expansionDefault && e.(*expansionDefault).expansion.left == l && e.(*expansionDefault).expansion.right == r && e.(*expansionDefault).expansion.pathSep == pathSep
+//@ ensures [alternative] op == ":+" ==> typeof(e) == *expansionAlt && e.(*expansionAlt).expansion.left == l && e.(*expansionAlt).expansion.right == r && e.(*expansionAlt).expansion.pathSep == pathSep
+//@ ensures [error] op == ":?" ==> typeof(e) == *expansionErr && e.(*expansionErr).expansion.left == l && e.(*expansionErr).expansion.right == r && e.(*expansionErr).expansion.pathSep == pathSep
+
+//@ func (parseState).finalize :: st, pathSep, maxIdx, enableNumKeys, allowEscapePath -> r, err
+//@ props C20 C07
+//@ nonil
+//@ pure
+//@ at-call parsePath requires sep == entry(pathSep) && maxIdx == entry(maxIdx) && enableNumKeys == entry(enableNumKeys) && allowEscapePath == entry(allowEscapePath)
+//@ ensures [not_a_variable] !st.isvar ==> err != nil
 
 //@ func addString
 //@ trusted
 //@ pure
 //@ ensures len(result) >= 1
 
+//@ func normalizeString :: ctx, opts, str -> r, err
+//@ props C07 C20
+//@ sweep
+//@ at-call parseSplice requires pathSep == entry(opts).pathSep && maxIdx == entry(opts).maxIdx && enableNumKeys == entry(opts).enableNumKeys && allowEscapePath == entry(opts).escapePath
+
+//@ func parseSplice
+//@ props C07 C20
+//@ sweep
+//@ at-call parseVarExp requires pathSep == entry(pathSep) && maxIdx == entry(maxIdx) && enableNumKeys == entry(enableNumKeys) && allowEscapePath == entry(allowEscapePath)
+
+// C20: the index bound and the two path flags reach the path parser exactly as given (the expression built for
+// "${name}" is parsed with the caller's MaxIdx / EnableNumKeys / EscapePath, in their own roles)
 //@ func parseVarExp
-//@ props C07
+//@ props C07 C20
+//@ at-call (parseState).finalize requires pathSep == entry(pathSep) && maxIdx == entry(maxIdx) && enableNumKeys == entry(enableNumKeys) && allowEscapePath == entry(allowEscapePath)
 //@ loop 1 invariant len(stack) >= 1
 //@ loop 1 invariant !stack[0].isvar
 //@ loop 1 invariant forall j int :: 0 <= j && j < len(stack) ==> (stack[j].st == 0 || stack[j].st == 1)
@@ -1559,10 +1583,6 @@ package ucfg
 
 // the old value handed to the slice merge is invalid or of slice kind (its callers dispatch on the kind)
 //@ ghost func rvValid(v reflect.Value) bool
-//@ func reifySliceMerge :: opts, old, tTo, val -> r, err
-//@ props C07
-//@ sweep
-//@ requires !rvValid(old) || nilableKind(rvKind(old))
 
 // ---------------------------------------------------------------- C06 / C13: struct tags (the one parser used on the way in and on the way out)
 
@@ -1735,6 +1755,8 @@ package ucfg
 //@ sweep
 //@ rvwrites nothing
 //@ ensures [field_of_struct] err == nil && !skip ==> info.value == rvField(structVal, fieldIdx) && rvRootOf(info.value) == rvRootOf(structVal)
+//@ ensures [policy_from_tag] err == nil && !skip && info.tagOptions.cfgHandling != cfgDefaultHandling ==> info.options.configValueHandling == info.tagOptions.cfgHandling
+//@ ensures [policy_inherited] err == nil && !skip && info.tagOptions.cfgHandling == cfgDefaultHandling ==> info.options.configValueHandling == old(opts.configValueHandling)
 
 //@ func reifyGetField :: cfg, opts, name, to, fieldType -> result
 //@ props C07
@@ -1994,3 +2016,43 @@ package ucfg
 //@ ensures [string] typeof(v) == string ==> (result == nil) == (v.(string) != "")
 //@ ensures [nil_slice] v != nil && typeof(v) != string && typeof(v) != regexp.Regexp && (rvKind(rvOf(v)) == 23 || rvKind(rvOf(v)) == 21) && rvNil(rvOf(v)) ==> result != nil
 //@ ensures [empty_list] v != nil && typeof(v) != string && typeof(v) != regexp.Regexp && (rvKind(rvOf(v)) == 17 || (rvKind(rvOf(v)) == 23 && !rvNil(rvOf(v)))) ==> (result == nil) == (rvLen(rvOf(v)) != 0)
+
+// ---------------------------------------------------------------- C13: lists are merged according to the policy in force
+
+//@ func (*fieldOptions).configHandling :: o -> h
+//@ props C13 C01
+//@ requires o != nil && o.opts != nil
+//@ pure
+//@ rvwrites nothing
+//@ ensures [tag_wins] o.tag.cfgHandling != cfgDefaultHandling ==> h == o.tag.cfgHandling
+//@ ensures [global] o.tag.cfgHandling == cfgDefaultHandling ==> h == o.opts.configValueHandling
+
+// policyOf: the list policy in force for one field: the field's tag if it names one, else the global option
+//@ pred policyIs(o fieldOptions, p configHandling) := (o.tag.cfgHandling != cfgDefaultHandling && o.tag.cfgHandling == p) || (o.tag.cfgHandling == cfgDefaultHandling && o.opts.configValueHandling == p)
+//@ pred hasOld(old reflect.Value) := rvValid(old) && !rvNil(old)
+
+// reifySliceMerge: the slice handed to the element loop has the length and the window the policy prescribes and
+// - whenever the target held a slice - already contains the old entries at the position the policy prescribes
+// (replace: none kept; append: old first; prepend: old after the new ones; merge by index: old at 0, length = max).
+//@ func reifySliceMerge :: opts, old, tTo, val -> r, err
+//@ props C13 C07
+//@ sweep
+//@ requires opts.opts != nil
+//@ requires !rvValid(old) || nilableKind(rvKind(old))
+//@ requires hasOld(old) ==> rvKind(old) == 23 && rvLen(old) <= 4611686018427387903
+//@ at-call reifyDoArray requires !hasOld(entry(old)) ==> start == 0 && rvLen(to) == len(arr) && rvver(rvRootOf(to)) == zeroVer()
+//@ at-call reifyDoArray requires hasOld(entry(old)) && policyIs(entry(opts), cfgReplaceValue) ==> start == 0 && rvLen(to) == len(arr) && rvver(rvRootOf(to)) == zeroVer()
+//@ at-call reifyDoArray requires hasOld(entry(old)) && policyIs(entry(opts), cfgArrAppend) && len(arr) + rvLen(entry(old)) < 9223372036854775807 ==> start == rvLen(entry(old)) && rvLen(to) == len(arr) + rvLen(entry(old)) && holdsCopy(rvSlice(to, 0, rvLen(to)), entry(old))
+//@ at-call reifyDoArray requires hasOld(entry(old)) && policyIs(entry(opts), cfgArrPrepend) && len(arr) + rvLen(entry(old)) < 9223372036854775807 ==> start == 0 && rvLen(to) == len(arr) + rvLen(entry(old)) && holdsCopy(rvSlice(to, len(arr), rvLen(to)), entry(old))
+//@ at-call reifyDoArray requires hasOld(entry(old)) && !policyIs(entry(opts), cfgReplaceValue) && !policyIs(entry(opts), cfgArrAppend) && !policyIs(entry(opts), cfgArrPrepend) ==> start == 0 && (len(arr) >= rvLen(entry(old)) ==> rvLen(to) == len(arr)) && (len(arr) < rvLen(entry(old)) ==> rvLen(to) == rvLen(entry(old))) && holdsCopy(rvSlice(to, 0, rvLen(to)), entry(old))
+
+//@ func castArr :: opts, v -> arr, err
+//@ props C07
+//@ sweep
+//@ rvwrites nothing
+
+//@ func parseValidatorTags :: tag -> tags, err
+//@ props C07 C04
+//@ nonil
+//@ pure
+//@ rvwrites nothing
